@@ -429,13 +429,37 @@ fn ref_relative<const M1: usize, const M2: usize>(
     Some(yl + 1)
 }
 
+/// An arbitrary valid rsync URI `rsync://h/m/` + exactly P path bytes
+/// (authority and module fixed, so that only the path algebra is symbolic).
+fn any_rsync_fixed_module<const N: usize, const M: usize>()
+    -> (Rsync, &'static [u8; M], usize, usize) {
+    let mut tail: [u8; N] = kani::any();
+    tail[0] = b'h'; tail[1] = b'/'; tail[2] = b'm'; tail[3] = b'/';
+    let want = ref_rsync_tail(&tail);
+    kani::assume(want.is_some());
+    let (a, m) = want.unwrap();
+    assert!(a == 1 && m == 1);
+    let buf: &'static [u8; M] = Box::leak(Box::new(rsync_uri::<N, M>(&tail)));
+    let u = Rsync::verif_from_parts(bytes::Bytes::from_static(buf), 10, 12);
+    (u, buf, 1, 1)
+}
+
 fn rsync_relative_body<const N1: usize, const M1: usize,
                        const N2: usize, const M2: usize>() -> bool {
-    let (x, xb, xa, xm) = any_valid_rsync::<N1, M1>();
-    let (y, yb, ya, ym) = any_valid_rsync::<N2, M2>();
+    let (below, same) = rsync_relative_check::<M1, M2>(
+        any_valid_rsync::<N1, M1>(), any_valid_rsync::<N2, M2>());
+    kani::cover!(same);
+    below
+}
+
+fn rsync_relative_check<const M1: usize, const M2: usize>(
+    xs: (Rsync, &'static [u8; M1], usize, usize),
+    ys: (Rsync, &'static [u8; M2], usize, usize),
+) -> (bool, bool) {
+    let (x, xb, xa, xm) = xs;
+    let (y, yb, ya, ym) = ys;
     let want = ref_relative(xb, xa, xm, yb, ya, ym);
     let got = x.relative_to(&y);
-    kani::cover!(matches!(want, Some(k) if k == M1));
     kani::cover!(want.is_none() && xa == ya && xm == ym);
     match (got, want) {
         (None, None) => {}
@@ -452,7 +476,7 @@ fn rsync_relative_body<const N1: usize, const M1: usize,
     // parent-of is "relative path exists and is non-empty"
     assert_eq!(y.is_parent_of(&x), matches!(want, Some(k) if k < M1));
     std::mem::forget((x, y));
-    matches!(want, Some(k) if k < M1)
+    (matches!(want, Some(k) if k < M1), matches!(want, Some(k) if k == M1))
 }
 
 /// @tier quick thorough
@@ -482,6 +506,59 @@ fn rsync_relative_to_len6_len5() {
 fn rsync_relative_to_len5_len5() {
     let below = rsync_relative_body::<5, 13, 5, 13>();
     assert!(!below); // equal lengths: never strictly below
+}
+
+/// @tier quick thorough
+/// @fn rpki::uri::Rsync::relative_to rpki::uri::Rsync::is_parent_of
+/// @bounds self = rsync://h/m/ + 2 path bytes, other = rsync://h/m/ + 1 path
+///   byte (every permitted byte, e.g. "aa" against "a", "a/" against "a");
+///   unwind 16
+/// @says see rsync_relative_to_len6_len5; this cheap member has a path that
+///   repeats the other's path ("aa" is not below "a")
+#[kani::proof]
+#[kani::unwind(16)]
+fn rsync_relative_to_paths_2_1() {
+    let (_, same) = rsync_relative_check::<14, 13>(
+        any_rsync_fixed_module::<6, 14>(), any_rsync_fixed_module::<5, 13>());
+    kani::cover!(same);
+}
+
+/// @tier quick thorough
+/// @fn rpki::uri::Rsync::relative_to rpki::uri::Rsync::is_parent_of
+/// @bounds self = rsync://h/m/ + 4 path bytes, other = rsync://h/m/ + 1 path
+///   byte ("aa/b" against "a", "a/bc" against "a"); unwind 18
+/// @says see rsync_relative_to_len6_len5
+#[kani::proof]
+#[kani::unwind(18)]
+fn rsync_relative_to_paths_4_1() {
+    let (below, _) = rsync_relative_check::<16, 13>(
+        any_rsync_fixed_module::<8, 16>(), any_rsync_fixed_module::<5, 13>());
+    kani::cover!(below);
+}
+
+/// The concrete URI rsync://h/m/a (as if parsed).
+fn rsync_h_m_a() -> (Rsync, &'static [u8; 13], usize, usize) {
+    let buf: &'static [u8; 13] = b"rsync://h/m/a";
+    (Rsync::verif_from_parts(bytes::Bytes::from_static(buf), 10, 12),
+     buf, 1, 1)
+}
+
+/// @tier quick thorough
+/// @fn rpki::uri::Rsync::relative_to rpki::uri::Rsync::is_parent_of
+/// @bounds other = the concrete URI rsync://h/m/a, self = rsync://h/m/ + 2
+///   and + 4 arbitrary valid path bytes; unwind 18
+/// @says see rsync_relative_to_len6_len5; with a concrete `other` the
+///   library's string primitives run on a constant pattern, which keeps
+///   this member cheap whatever primitive the implementation uses
+#[kani::proof]
+#[kani::unwind(18)]
+fn rsync_relative_to_concrete_other() {
+    let (_, same) = rsync_relative_check::<14, 13>(
+        any_rsync_fixed_module::<6, 14>(), rsync_h_m_a());
+    kani::cover!(same);
+    let (below, _) = rsync_relative_check::<16, 13>(
+        any_rsync_fixed_module::<8, 16>(), rsync_h_m_a());
+    kani::cover!(below);
 }
 
 /// @tier thorough
